@@ -74,6 +74,25 @@ theorem putValue_unresolvable_refines (σ : FnM.St) (x : String) (v : Fn.V) (hx 
     absR (FnM.rtPutValue (.prop none x) v σ) = Fn.putIdent (absSt σ) none x v :=
   putValue_unresolvable_spec σ x v hx hv hw hd g hg hna hno
 
+/-- **[[Put]] on a mapped index of an arguments object** (§10.6): the own property and the joined parameter
+    are both written, in the stash the map points to -/
+theorem put_mapped_refines (σ : FnM.St) (a : Nat) (x : String) (v : Fn.V) (o : FnM.Obj) (ipn : List String) (st i : Nat)
+    (pn : String) (p0 : FnM.Pty) (p : FnM.DclProp)
+    (ho : σ.obj? a = some o) (hval : o.val = .arguments ipn st) (hidx : Fn.idx? x = some i)
+    (hpn : ipn[i]? = some pn) (hne : pn ≠ "") (hst : st ≠ 0)
+    (hbind : Fn.lookupA pn (FnM.dclProps σ st) = some p) (hmut : p.mutable_ = true) (hn : StashNodup σ)
+    (hown : Fn.lookupA x o.props = some p0) (hw : p0.w = true) :
+    absR (FnM.objPut a x v false σ) = Fn.putProp (absSt σ) (.ref a) x v :=
+  putProp_mapped_spec σ a x v o ipn st i pn p0 p ho hval hidx hpn hne hst hbind hmut hn hown hw
+
+/-- **[[Delete]]** (§8.12.7; §10.6: deleting an index of an arguments object un-maps it) on any object that is
+    not a String wrapper: non-configurable properties stay and the result is false -/
+theorem delete_refines (σ : FnM.St) (a : Nat) (x : String) (hv : Visible σ x) (hn : PropsNodup σ)
+    (hc : ∀ o p, σ.obj? a = some o → Fn.lookupA x o.props = some p → p.c = !Fn.fixedProp (absKind o.val) x)
+    (hmo : ∀ o, σ.obj? a = some o → isMapped o.val x = true → (Fn.lookupA x o.props).isSome = true) :
+    absR (boolR (FnM.objDelete a x false σ)) = Fn.delProp (absSt σ) (.ref a) x :=
+  delete_spec σ a x hv hn hc hmo
+
 /-! ## the conditions are satisfiable: decidable checkers, and a concrete state -/
 
 def isArgs : FnM.OVal → Bool | .arguments .. => true | _ => false
@@ -188,5 +207,40 @@ example : Fn.putIdent (absSt σ1) (some 2) "me" (.num 9) = .ok () (absSt σ1) :=
 example : absR (FnM.rtPutValue (.stash 2 "me") (.num 9) σ1) = .ok () (absSt σ1) := by
   rw [putValue_dcl_refines σ1 2 "me" (.num 9) ⟨.ref 3, false, false, true⟩ (by decide) (stash_checks σ1 (by decide)).2 rfl]
   rfl
+
+theorem propsNodup_of_check (σ : FnM.St)
+    (h : (σ.heap.all fun o => decide ((o.props.map (·.1)).Nodup)) = true) : PropsNodup σ := by
+  intro a o ho
+  have := List.all_eq_true.1 h o (obj_mem σ a o ho)
+  simpa using this
+
+/-- σ1 plus an arguments object (address 12) of a call f(5, 6) of function f(a, a): index 1 is joined to `a` in
+    function stash 3, index 0 is not (a later parameter has the name) -/
+def σ2 : FnM.St :=
+  { σ1 with
+    heap := σ1.heap ++ [ { cls := "Arguments", proto := some FnM.objProto, val := .arguments ["", "a"] 3,
+                           props := [("0", FnM.p111 (.num 5)), ("1", FnM.p111 .undef), ("length", FnM.p101 (.num 2)),
+                                     ("callee", FnM.p101 (.ref 3))] } ],
+    stashes := σ1.stashes ++ [ .fn (some 0) [("a", ⟨.num 6, true, false, false⟩), ("arguments", ⟨.ref 12, true, false, false⟩)] (some 12) ] }
+
+example : PropsNodup σ2 := propsNodup_of_check σ2 (by decide)
+example : StashReadable σ2 ∧ StashNodup σ2 := stash_checks σ2 (by decide)
+
+/-- arguments[1] = 9 writes the parameter `a`; reading `a` afterwards gives 9 on both sides -/
+example : absR (FnM.objPut 12 "1" (.num 9) false σ2) = Fn.putProp (absSt σ2) (.ref 12) "1" (.num 9) :=
+  put_mapped_refines σ2 12 "1" (.num 9) _ ["", "a"] 3 1 "a" (FnM.p111 .undef) ⟨.num 6, true, false, false⟩
+    rfl rfl (by decide) rfl (by decide) (by decide) rfl rfl (stash_checks σ2 (by decide)).2 rfl rfl
+example : (match FnM.objPut 12 "1" (.num 9) false σ2 with
+    | .ok _ σ' => FnM.dclProps σ' 3 |>.map (fun kp => (kp.1, kp.2.value))
+    | _ => []) = [("a", .num 9), ("arguments", .ref 12)] := by decide
+
+/-- delete arguments[1] un-maps it; delete f.length is refused -/
+example : absR (boolR (FnM.objDelete 12 "1" false σ2)) = Fn.delProp (absSt σ2) (.ref 12) "1" :=
+  delete_refines σ2 12 "1" (visible_of_check σ2 "1" (by decide)) (propsNodup_of_check σ2 (by decide))
+    (by intro o p ho hl; simp only [σ2, σ1, FnM.St.obj?] at ho; cases ho; simp [Fn.lookupA] at hl; subst hl; rfl)
+    (by intro o ho _; simp only [σ2, σ1, FnM.St.obj?] at ho; cases ho; rfl)
+example : (match Fn.delProp (absSt σ2) (.ref 12) "1" with
+    | .ok v s => (v, (s.obj? 12).map (·.kind) |>.map fun k => match k with | .args m _ => m | _ => [])
+    | _ => (.undef, none)) = (.bool true, some [none, none]) := by decide
 
 end OttoVerif.C01.FnThm
